@@ -87,7 +87,17 @@ class StringDiscretizer(BaseDiscretizer):
             else:
                 # currently known order (only with strings)
                 known_order = self.values_orders[feature]
-                known_order.update(values_order.content)
+                for str_value, raw_values in values_order.content.items():
+                    # known string value (possibly grouped within another one): adding raw values to its group
+                    if known_order.contains(str_value):
+                        group = known_order.get_group(str_value)
+                        known_values = known_order.content[group]
+                        known_order.content[group] = [
+                            value for value in raw_values if value not in known_values
+                        ] + known_values
+                    # unknown string value: new group
+                    else:
+                        known_order.update({str_value: raw_values})
                 self.values_orders.update({feature: known_order})
 
         # discretizing features based on each feature's values_order
